@@ -4,6 +4,7 @@
 package main
 
 import (
+	"context"
 	"encoding/json"
 	"flag"
 	"fmt"
@@ -12,8 +13,11 @@ import (
 	"sync/atomic"
 	"time"
 
+	"mosn.io/api"
 	v2 "mosn.io/mosn/pkg/config/v2"
 	"mosn.io/mosn/pkg/metrics"
+	"mosn.io/mosn/pkg/types"
+	"mosn.io/mosn/pkg/upstream/cluster"
 	"verif/e2e"
 	"verif/gate"
 	"verif/vh"
@@ -55,6 +59,31 @@ type dsClient interface {
 	Close()
 }
 
+// readBooks sums the circuit-breaker resources of the four clusters.
+func readBooks() (rq, pd, rt int64) {
+	for _, cn := range []string{"direct", "r1", "r2", "all"} {
+		r := e2e.Resources(cn)
+		rq, pd, rt = rq+r["requests"], pd+r["pending"], rt+r["retries"]
+	}
+	return
+}
+
+// setHealth flags every host of a cluster as failing (or passing again) its active health check.
+func setHealth(clusterName string, healthy bool) {
+	snap := cluster.GetClusterMngAdapterInstance().GetClusterSnapshot(context.Background(), clusterName)
+	if snap == nil {
+		return
+	}
+	snap.HostSet().Range(func(h types.Host) bool {
+		if healthy {
+			h.ClearHealthFlag(api.FAILED_ACTIVE_HC)
+		} else {
+			h.SetHealthFlag(api.FAILED_ACTIVE_HC)
+		}
+		return true
+	})
+}
+
 func main() {
 	cases := flag.String("cases", "", "cases file")
 	out := flag.String("trace", "", "trace output")
@@ -62,6 +91,7 @@ func main() {
 	shard := flag.Int("shard", 0, "shard index")
 	shards := flag.Int("shards", 1, "number of shards")
 	proto := flag.String("proto", "http1", "http1 | http2 | bolt | boltoneway (downstream and upstream protocol of the listener under test)")
+	books := flag.Bool("books", false, "give every cluster (high) circuit-breaker thresholds so that its resources count (C10 guided part)")
 	flag.Parse()
 	isBolt := *proto == "bolt" || *proto == "boltoneway"
 	isH2 := *proto == "http2"
@@ -99,6 +129,12 @@ func main() {
 		{Name: "r2", Hosts: []string{ref1, ref2, upAddr}, LbType: rrr},
 		{Name: "all", Hosts: []string{ref1, ref2, ref3, ref4}, LbType: rrr},
 	})
+	if *books { // a resource with threshold 0 does not count at all
+		for i := range clusters {
+			clusters[i].CirBreThresholds = v2.CircuitBreakers{Thresholds: []v2.Thresholds{{MaxConnections: 1000,
+				MaxPendingRequests: 1000, MaxRequests: 1000, MaxRetries: 1000}}}
+		}
+	}
 	routes := []e2e.RouteSpec{}
 	for _, c := range []string{"direct", "r1", "r2", "all"} {
 		c := c
@@ -182,6 +218,7 @@ func main() {
 		}
 		sched.Reset()
 		atomic.StoreUint64(&firstRid, 0)
+		rq0, pd0, rt0 := readBooks()
 		if c.Steps == nil {
 			c.Steps = []string{} // JSON null is not a TLA+ value
 		}
@@ -246,7 +283,7 @@ func main() {
 			cl = hc
 		}
 		reached, happened := false, false
-		clientClosed := false
+		clientClosed, hostsDown := false, false
 		if len(c.Steps) > 0 {
 			reached, happened = true, true
 			for _, st := range c.Steps {
@@ -335,6 +372,11 @@ func main() {
 					cl.Close()
 					clientClosed = true
 					_, happened = sched.AwaitEvent(m2, 400*time.Millisecond, func(e gate.Event) bool { return e.Name == "ds.clientreset" })
+				case "hostsdown":
+					// every host of the cluster fails its health check while the admitted retry has not chosen a host yet
+					setHealth(c.Cluster, false)
+					hostsDown = true
+					happened = true
 				}
 			}
 			if hold2Point != "" && reached {
@@ -384,7 +426,20 @@ func main() {
 		}
 		tr.Emit(vh.Ev{"ev": "cdone", "rid": rid, "kind": o.Kind, "status": o.Status, "extra": o.Extra,
 			"elapsed": o.ElapsedMs, "bound": globalMs + 700})
-		tr.Emit(vh.Ev{"ev": "quiesce", "active": active(), "arrivals": len(reg.Arrivals(tok))})
+		if hostsDown {
+			setHealth(c.Cluster, true)
+		}
+		// the circuit-breaker books of every cluster: nothing is in flight now (C10 reads these)
+		var rq, pd, rt int64
+		for i := 0; i < 100; i++ {
+			rq, pd, rt = readBooks()
+			rq, pd, rt = rq-rq0, pd-pd0, rt-rt0 // what this run took and did not give back
+			if rq == 0 && pd == 0 && rt == 0 {
+				break
+			}
+			time.Sleep(10 * time.Millisecond) // the books are settled a few statements after ds.clean
+		}
+		tr.Emit(vh.Ev{"ev": "quiesce", "active": active(), "arrivals": len(reg.Arrivals(tok)), "rq": rq, "pd": pd, "rt": rt})
 		rs.Put(map[string]interface{}{"idx": idx, "case": c, "reached": reached, "happened": happened, "outcome": o.Kind,
 			"status": o.Status, "elapsed": o.ElapsedMs, "rid": rid})
 		atomic.StoreUint64(&minRid, rid+1)
